@@ -244,6 +244,8 @@ func ruleOptions(w *World, r *Recorder, rule, typeName string, accept ...string)
 			b, known := allowed[f]
 			val := ol.Fields[f]
 			switch {
+			case !known && isZeroConst(val):
+				// a field spelled out with its zero value is the field left out
 			case !known:
 				r.Refute(rule, key+"#"+f, w.FnPos(ol.Fn), fmt.Sprintf("option %s=%s departs from the library default; its effect on the wire format / decoder limits is not covered by the rules", f, val))
 				okAll = false
@@ -261,6 +263,19 @@ func ruleOptions(w *World, r *Recorder, rule, typeName string, accept ...string)
 			ruleDecoderAccepts(w, r, rule, key, ol, acceptance)
 		}
 	}
+}
+
+// isZeroConst: the constant is the zero value of its kind (0, false, "").
+func isZeroConst(v constant.Value) bool {
+	switch v.Kind() {
+	case constant.Int, constant.Float:
+		return constant.Sign(v) == 0
+	case constant.Bool:
+		return !constant.BoolVal(v)
+	case constant.String:
+		return constant.StringVal(v) == ""
+	}
+	return false
 }
 
 // ruleDecoderAccepts: the acceptance side of the decoder's limits. Validation
@@ -1090,6 +1105,7 @@ func c12DispatcherReadsOnlyProfileMembers(w *World, r *Recorder, rule string) {
 	}
 	bad := ""
 	var at ssa.Instruction
+	entryParams := map[*ssa.Parameter]bool{} // helper parameters bound to a register entry of the loop
 	var checkUses func(m ssa.Value, depth int)
 	checkUses = func(m ssa.Value, depth int) {
 		if depth > 3 || m.Referrers() == nil {
@@ -1106,7 +1122,9 @@ func c12DispatcherReadsOnlyProfileMembers(w *World, r *Recorder, rule string) {
 				if src != "iteration" {
 					// a key that is a parameter of a helper handed the tag is fine
 					if _, isParam := x.Index.(*ssa.Parameter); !isParam {
-						bad, at = "it looks up a member whose name does not come from a registered profile's JSON tag", x
+						if pr := paramRoot(x.Index); pr == nil || !entryParams[pr] {
+							bad, at = "it looks up a member whose name does not come from a registered profile's JSON tag", x
+						}
 					}
 				}
 			case *ssa.Call:
@@ -1117,6 +1135,11 @@ func c12DispatcherReadsOnlyProfileMembers(w *World, r *Recorder, rule string) {
 					}
 					bad, at = "it hands the decoded object to "+calleeName(&x.Call), x
 					continue
+				}
+				for i, a := range x.Call.Args {
+					if src, _ := registerSource(a, reg); src == "iteration" && i < len(h.Params) {
+						entryParams[h.Params[i]] = true
+					}
 				}
 				for i, a := range x.Call.Args {
 					if a == m && i < len(h.Params) {
